@@ -10,6 +10,7 @@ the real environment by the C07 correspondence).
 from __future__ import annotations
 
 import ast
+import copy
 import datetime
 import json
 import math
@@ -47,6 +48,16 @@ def _div(a, b):
     return Fraction(a) / Fraction(b)
 
 
+class NaNProduced(ArithmeticError):
+    """inf - inf, 0 * inf: an error in the model (Core/Lang.lean: `Err.other`)"""
+
+
+def _nonan(v):
+    if isinstance(v, float) and v != v:
+        raise NaNProduced
+    return v
+
+
 class _Exact(ast.NodeTransformer):
     def __init__(self):
         self.tests = 0
@@ -60,6 +71,8 @@ class _Exact(ast.NodeTransformer):
         self.generic_visit(node)
         if isinstance(node.op, ast.Div):
             return ast.copy_location(ast.Call(ast.Name("_div", ast.Load()), [node.left, node.right], []), node)
+        if isinstance(node.op, (ast.Add, ast.Sub, ast.Mult)):
+            node = ast.copy_location(ast.Call(ast.Name("_nonan", ast.Load()), [node], []), node)
         return node
 
     def visit_Call(self, node):
@@ -87,14 +100,16 @@ def exact_function(entry: dict):
     """(callable, n_tests, coverage-set) for the rule's source with exact arithmetic."""
     from _gettsim.piecewise_functions import piecewise_polynomial
 
-    node = extract.source_of(entry)
-    node = ast.FunctionDef(name=node.name, args=node.args, body=node.body, decorator_list=[],
-                           returns=None, type_comment=None, lineno=1, col_offset=0)
     tr = _Exact()
-    node = tr.visit(node)
-    for a in node.args.args:
-        a.annotation = None
-    mod = ast.Module(body=[node], type_ignores=[])
+    defs = []
+    for node in [*copy.deepcopy(list(extract.helpers_of(entry).values())), extract.source_of(entry)]:
+        node = ast.FunctionDef(name=node.name, args=node.args, body=node.body, decorator_list=[],
+                               returns=None, type_comment=None, lineno=1, col_offset=0)
+        node = tr.visit(node)
+        for a in node.args.args:
+            a.annotation = None
+        defs.append(node)
+    mod = ast.Module(body=defs, type_ignores=[])
     ast.fix_missing_locations(mod)
     cov = set()
 
@@ -102,7 +117,7 @@ def exact_function(entry: dict):
         cov.add((i, bool(v)))
         return v
 
-    scope = {"_F": _F, "_div": _div, "_t": _t, "piecewise_polynomial": piecewise_polynomial,
+    scope = {"_F": _F, "_div": _div, "_t": _t, "_nonan": _nonan, "piecewise_polynomial": piecewise_polynomial,
              "np": np, "numpy": np}
     exec(compile(mod, f"<exactpy:{entry['fname']}>", "exec"), scope)  # noqa: S102
     return scope[entry["fname"]], tr.tests, cov
@@ -273,7 +288,7 @@ def canon_model(j):
 
 
 ERR = {"ZeroDivisionError": "ZeroDivisionError", "KeyError": "KeyError", "NameError": "NameError",
-       "UnboundLocalError": "NameError", "TypeError": "TypeError", "IndexError": "ShapeError"}
+       "UnboundLocalError": "NameError", "TypeError": "TypeError", "IndexError": "ShapeError", "NaNProduced": "Error"}
 
 
 def run_t1(run: common.Run, rnd, date: str, rows_per_rule: int, only: set | None = None):
@@ -292,7 +307,7 @@ def run_t1(run: common.Run, rnd, date: str, rows_per_rule: int, only: set | None
     for e in active:
         if only is not None and e["dag"] not in only and e["fname"] not in only:
             continue
-        fd = ruleir.strip_docstrings(ruleir.fundef(extract.source_of(e)))
+        fd = ruleir.fundef_inlined(extract.source_of(e), extract.helpers_of(e))
         opq = ruleir.opaque_nodes(fd["body"])
         if opq or e["skip_vectorization"]:
             status[e["fname"]] = {"in_fragment": False, "why": sorted(set(opq))[:4] or ["skip_vectorization"]}
